@@ -2,7 +2,8 @@ import copy
 
 from mindsdb_sql import Latest, OrderBy, NullConstant
 from mindsdb_sql.exceptions import PlanningException
-from mindsdb_sql.parser.ast import (Select, Identifier, BetweenOperation, Join, Star, BinaryOperation, Constant)
+from mindsdb_sql.parser.ast import (Select, Identifier, BetweenOperation, Join, Star, BinaryOperation, Constant,
+                                    NativeQuery)
 from mindsdb_sql.planner import utils
 from mindsdb_sql.planner.steps import (JoinStep, LimitOffsetStep, MultipleSteps, MapReduceStep,
                                        ApplyTimeseriesPredictorStep)
@@ -135,6 +136,10 @@ class PlanJoinTSPredictorQuery:
 
         predictor_namespace, predictor = self.planner.get_predictor_namespace_and_name_from_identifier(join_right)
         table = join_left
+        if not isinstance(table, (Identifier, NativeQuery)):
+            # a join or a sub-select that is not a plain 'select … from table' can't be the data source
+            raise PlanningException(
+                f'A time-series predictor can be joined only with a table, found: {type(table).__name__}')
 
         aliased_fields = self.get_aliased_fields(query.targets)
 
